@@ -300,7 +300,7 @@ func (e *FnEnc) instr(in ssa.Instruction) {
 		x := e.val(i.X)
 		switch i.Op {
 		case token.MUL:
-			if g, ok := i.X.(*ssa.Global); ok && e.W.ImmutableGlobal(g) {
+			if g, ok := i.X.(*ssa.Global); ok && e.W.ImmutableGlobal(g) && !e.isPkgInit() {
 				v := e.setVal(i, e.W.GlobalConst(g))
 				e.assumeValid(v)
 				e.note("A12 package-level variable treated as a constant (never stored to outside its initialiser): " + g.Pkg.Pkg.Path() + "." + g.Name())
@@ -415,6 +415,8 @@ func (e *FnEnc) instr(in ssa.Instruction) {
 			tid := e.W.TypeID(i.AssertedType)
 			okT = and(not(sx("=", x.T, "0")), sx("=", sx("itag", x.T), fmt.Sprint(tid)))
 			valT = e.W.UF(fmt.Sprintf("unbox.%d", tid), []string{"Int"}, s.SortOf(i.AssertedType), x.T)
+			// an interface value of that dynamic type is the boxing of its payload
+			e.assume(implies(okT, sx("=", e.W.UF(fmt.Sprintf("box.%d", tid), []string{s.SortOf(i.AssertedType)}, "Int", valT), x.T)))
 		}
 		if i.CommaOk {
 			okN := e.define("taok", "Bool", okT)
@@ -451,6 +453,7 @@ func (e *FnEnc) instr(in ssa.Instruction) {
 		m, k, v := e.val(i.Map), e.val(i.Key), e.val(i.Value)
 		mt := i.Map.Type().Underlying().(*types.Map)
 		e.assume(not(sx("=", m.T, "0")))
+		e.updateAsserts(i, k, v)
 		e.mapStore(mt, m.T, k.T, v.T)
 	case *ssa.Lookup:
 		x, k := e.val(i.X), e.val(i.Index)
@@ -822,4 +825,40 @@ func mapEscapes(m *ssa.MakeMap) bool {
 		}
 	}
 	return false
+}
+
+// updateAsserts generates the obligations of "mapupdate FIELD assert expr" clauses before an update of the map
+// read from a struct field of that name (or held in a local variable of that name).
+func (e *FnEnc) updateAsserts(i *ssa.MapUpdate, k, v Val) {
+	if e.con == nil || len(e.con.UpdateAsserts) == 0 {
+		return
+	}
+	name := ""
+	if u, ok := i.Map.(*ssa.UnOp); ok {
+		if fa, ok := u.X.(*ssa.FieldAddr); ok {
+			if st, ok := fa.X.Type().Underlying().(*types.Pointer).Elem().Underlying().(*types.Struct); ok {
+				name = st.Field(fa.Field).Name()
+			}
+		}
+	}
+	if f, ok := i.Map.(*ssa.Field); ok {
+		if st, ok := f.X.Type().Underlying().(*types.Struct); ok {
+			name = st.Field(f.Field).Name()
+		}
+	}
+	for n, a := range e.con.UpdateAsserts {
+		if a.Callee != name || !clauseActive(a.Clause, e.prop) {
+			continue
+		}
+		env := e.specEnv(e.cur, e.initState, nil)
+		env.site = e.curBlock
+		env.vars["key"] = k
+		env.vars["value"] = v
+		e.obligeClause(env, a.Clause, fmt.Sprintf("mapupdate.%s.assert%d@%s", name, n+1, e.posOf(i)), "protocol", e.curGuard, e.posOf(i))
+	}
+}
+
+// isPkgInit: the function being encoded is a package initialiser (where package-level variables get their values).
+func (e *FnEnc) isPkgInit() bool {
+	return e.fn != nil && e.fn.Name() == "init" && e.fn.Synthetic != ""
 }
